@@ -21,7 +21,6 @@ enter/exit log of the handlers with the nesting depth per block.
 import EdzedModel.Basic.Val
 import EdzedModel.Counter
 import EdzedModel.Gen.Constants
-import EdzedModel.Gen.TranslatedRepeat
 
 namespace Edzed.Dispatch
 
@@ -655,21 +654,6 @@ def repeatEvent (dlv : Dlv) (b : Blk) (d : Nat) (s : St) (et : EType) (data : Da
     andThen (setOutput dlv b d s (.int 0)) fun s1 =>
     andThen (sendEdges dlv d s1 [repeatEdge b] (withRepeat (withOrigSource data) 0)) fun s2 =>
     ({ s2 with rcur := upd s2.rcur d (some (withOrigSource data, 0)) }, .ret .none)
-
-/-- the meaning of the actions of `Repeat._event` as translated from the source
-    (`Gen.TrR.repeatEventActs`, tools/py2lean_repeat.py), in terms of this model; an exception ends
-    the list, `ret` returns None -/
-def runRepActs (dlv : Dlv) (b : Blk) (d : Nat) : St → Data → List Gen.TrR.Act → St × Res
-  | s, _, [] => (s, .ret .none)
-  | s, data, a :: as =>
-    match a with
-    | .warnOnce => runRepActs dlv b d s data as
-    | .setItemFromItem dst src => runRepActs dlv b d s (data.set dst ((data.get? src).getD .none)) as
-    | .setOutput n => andThen (setOutput dlv b d s (.int n)) fun s1 => runRepActs dlv b d s1 data as
-    | .send rep =>
-      andThen (sendEdges dlv d s [repeatEdge b] (withRepeat data rep)) fun s1 => runRepActs dlv b d s1 data as
-    | .enqueue => runRepActs dlv b d { s with rcur := upd s.rcur d (some (data, 0)) } data as
-    | .ret => (s, .ret .none)
 
 /-- the handler's frame: entry, body, exit (normally or by an exception), classification -/
 def inHandler (d : Nat) (stk0 : List Frame) (s3 : St) (data : Data) (body : St → St × Res) : St × Res :=
